@@ -12,6 +12,7 @@ import (
 	"os"
 	"os/exec"
 	"path/filepath"
+	"regexp"
 	"runtime"
 	"runtime/debug"
 	"sort"
@@ -90,7 +91,7 @@ type Check struct {
 	Rule        string
 	Assumptions []string
 	Parts       []Part
-	Race        bool // needs the -race build of the runner
+	Race        bool // workers run from the -race build of the runner; race reports are violations
 	Workers     int  // 0 = NumCPU
 	CaseTimeout time.Duration
 	// MinNonTrivial is the floor of distinct non-trivial cases below which the run is broken.
@@ -297,6 +298,12 @@ func replay(c *Check, path string) int {
 		fmt.Fprintln(os.Stderr, err)
 		return 2
 	}
+	if rf.Case < 0 {
+		// a race-detector report is not tied to one case: show it; re-run the check to reproduce
+		fmt.Println(rf.Result.Detail)
+		fmt.Printf("VIOLATION property=%s replay=%s\n", c.ID, path)
+		return 1
+	}
 	r := c.RunCase(rf.Tier, rf.Seed, rf.Case)
 	out, _ := json.MarshalIndent(r, "", " ")
 	fmt.Println(string(out))
@@ -412,6 +419,14 @@ func coordinate(c *Check, tier string) int {
 				}
 			}
 		}
+	}
+	raceReports := 0
+	if c.Race {
+		for sig, block := range collectRaces(logdir) {
+			raceReports++
+			viol = append(viol, Result{Case: -1, Verdict: Violated, Detail: "DATA RACE reported by the Go race detector (" + sig + "):\n" + block})
+		}
+		agg["race_reports_distinct"] = int64(raceReports)
 	}
 	sort.Slice(viol, func(i, j int) bool { return viol[i].Case < viol[j].Case })
 
@@ -529,7 +544,11 @@ func runWorker(c *Check, tier string, seed int64, w int, logdir string, jobs <-c
 		closer func()
 	}
 	startProc := func() (*proc, error) {
-		cmd := exec.Command(Self(), "worker", c.ID, tier, strconv.FormatInt(seed, 10))
+		exe := Self()
+		if c.Race {
+			exe = filepath.Join(os.Getenv("VERIF_BIN"), "vcheck-race")
+		}
+		cmd := exec.Command(exe, "worker", c.ID, tier, strconv.FormatInt(seed, 10))
 		errf := filepath.Join(logdir, fmt.Sprintf("w%d.err", w))
 		ef, err := os.Create(errf)
 		if err != nil {
@@ -545,6 +564,9 @@ func runWorker(c *Check, tier string, seed int64, w int, logdir string, jobs <-c
 		cmd.Stdout = ef
 		cmd.ExtraFiles = []*os.File{outw}
 		cmd.Env = append(os.Environ(), "VERIF_WORKER="+strconv.Itoa(w))
+		if c.Race {
+			cmd.Env = append(cmd.Env, "GORACE=halt_on_error=0 log_path="+filepath.Join(logdir, "race"))
+		}
 		if err := cmd.Start(); err != nil {
 			ef.Close()
 			outw.Close()
@@ -621,6 +643,41 @@ func tailFile(path string, n int) string {
 		b = b[len(b)-n:]
 	}
 	return string(b)
+}
+
+var raceFrameRx = regexp.MustCompile(`(?m)^  ([A-Za-z0-9_./*()\[\]-]+)\(`)
+
+// collectRaces reads the race detector's log files and de-duplicates the reports by the
+// functions on top of the two stacks (line numbers stripped).
+func collectRaces(logdir string) map[string]string {
+	out := map[string]string{}
+	files, _ := filepath.Glob(filepath.Join(logdir, "race.*"))
+	for _, f := range files {
+		b, err := os.ReadFile(f)
+		if err != nil {
+			continue
+		}
+		for _, block := range strings.Split(string(b), "==================") {
+			if !strings.Contains(block, "WARNING: DATA RACE") {
+				continue
+			}
+			var tops []string
+			for _, part := range strings.Split(block, "\n\n") {
+				if m := raceFrameRx.FindStringSubmatch(part); m != nil && (strings.Contains(part, "by goroutine") || strings.Contains(part, "by main goroutine")) {
+					tops = append(tops, m[1])
+				}
+			}
+			sort.Strings(tops)
+			sig := strings.Join(tops, " <-> ")
+			if _, ok := out[sig]; !ok {
+				if len(block) > 6000 {
+					block = block[:6000]
+				}
+				out[sig] = block
+			}
+		}
+	}
+	return out
 }
 
 // KnownFinding is one entry of known_findings.json.
